@@ -59,6 +59,9 @@ pub enum Op {
     /// the next service call panics synchronously inside `Service::call` (kills that worker)
     PanicNext,
     Sleep { ms: u16 },
+    /// nothing happens for 10.6 s (no client, no completion, no command): whatever the accept
+    /// thread does on its own after a long quiet period must respect the limits too
+    LongIdle,
     /// a fatal accept error on listener `l` with a client waiting there, while the accept thread
     /// is kept busy with other events: the client must be served roughly 500 ms later all the same
     BackoffBusy { l: u16 },
@@ -103,6 +106,10 @@ pub struct Case {
     /// connection goes on; it is released only afterwards
     #[serde(default)]
     pub block_after_stop: bool,
+    /// the service factory refuses the first instantiation after the initial ones (the first
+    /// faulted worker cannot be replaced; later faults must still be handled)
+    #[serde(default)]
+    pub fail_first_restart: bool,
 }
 
 #[derive(Clone, Copy, Debug, PartialEq, Eq)]
@@ -113,6 +120,7 @@ pub enum Prop {
     C04,
     C05,
     C06,
+    C07,
     C08,
 }
 
@@ -141,6 +149,9 @@ struct World {
     /// while set `poll_ready` answers Pending (the wakers are kept and woken when it is cleared)
     gate_closed: AtomicBool,
     gate_wakers: Mutex<Vec<std::task::Waker>>,
+    /// the service factory fails its n-th instantiation (usize::MAX: never)
+    fail_at: AtomicUsize,
+    factory_failed: AtomicBool,
 }
 
 impl World {
@@ -508,7 +519,7 @@ fn run_once_inner(c: &Case, prop: Prop) -> Result<Obs, (Fail, bool)> {
     let nl = c.listeners.len().clamp(1, 2);
     let workers = if c.ops.contains(&Op::PanicAll) { c.workers.clamp(1, 32) } else { c.workers.clamp(1, 3) };
     let limit = if c.limit >= 12 { 12 } else { c.limit.clamp(1, 4) };
-    let w = Arc::new(World { calls: Mutex::new(vec![]), gauge: Mutex::new(HashMap::new()), over_limit: Mutex::new(None), limit, panic_next: AtomicBool::new(false), factory_count: AtomicUsize::new(0), block_ms: AtomicUsize::new(0), call_count: AtomicUsize::new(0), drop_ms: AtomicUsize::new(if c.slow_drop { 500 } else { 0 }), panic_all: AtomicBool::new(false), died: AtomicUsize::new(0), gate_closed: AtomicBool::new(false), gate_wakers: Mutex::new(vec![]) });
+    let w = Arc::new(World { calls: Mutex::new(vec![]), gauge: Mutex::new(HashMap::new()), over_limit: Mutex::new(None), limit, panic_next: AtomicBool::new(false), factory_count: AtomicUsize::new(0), block_ms: AtomicUsize::new(0), call_count: AtomicUsize::new(0), drop_ms: AtomicUsize::new(if c.slow_drop { 500 } else { 0 }), panic_all: AtomicBool::new(false), died: AtomicUsize::new(0), gate_closed: AtomicBool::new(false), gate_wakers: Mutex::new(vec![]), fail_at: AtomicUsize::new(usize::MAX), factory_failed: AtomicBool::new(false) });
     // listeners are bound here so that their fds are known (accept-error injection is keyed by fd)
     let mut addrs = vec![];
     let mut fds = vec![];
@@ -600,7 +611,12 @@ fn run_once_inner(c: &Case, prop: Prop) -> Result<Obs, (Fail, bool)> {
                         fn_factory(move || {
                             let w5 = w4.clone();
                             async move {
-                                w5.factory_count.fetch_add(1, Ordering::SeqCst);
+                                let nth = w5.factory_count.fetch_add(1, Ordering::SeqCst);
+                                if nth == w5.fail_at.load(Ordering::SeqCst) {
+                                    // the factory refuses this instantiation (a replacement that cannot be started)
+                                    w5.factory_failed.store(true, Ordering::SeqCst);
+                                    return Err(());
+                                }
                                 Ok::<_, ()>(EchoSvc { listener: i, w: w5 })
                             }
                         })
@@ -619,7 +635,12 @@ fn run_once_inner(c: &Case, prop: Prop) -> Result<Obs, (Fail, bool)> {
                         fn_factory(move || {
                             let w5 = w4.clone();
                             async move {
-                                w5.factory_count.fetch_add(1, Ordering::SeqCst);
+                                let nth = w5.factory_count.fetch_add(1, Ordering::SeqCst);
+                                if nth == w5.fail_at.load(Ordering::SeqCst) {
+                                    // the factory refuses this instantiation (a replacement that cannot be started)
+                                    w5.factory_failed.store(true, Ordering::SeqCst);
+                                    return Err(());
+                                }
                                 Ok::<_, ()>(EchoSvc { listener: i, w: w5 })
                             }
                         })
@@ -638,7 +659,12 @@ fn run_once_inner(c: &Case, prop: Prop) -> Result<Obs, (Fail, bool)> {
                         fn_factory(move || {
                             let w5 = w4.clone();
                             async move {
-                                w5.factory_count.fetch_add(1, Ordering::SeqCst);
+                                let nth = w5.factory_count.fetch_add(1, Ordering::SeqCst);
+                                if nth == w5.fail_at.load(Ordering::SeqCst) {
+                                    // the factory refuses this instantiation (a replacement that cannot be started)
+                                    w5.factory_failed.store(true, Ordering::SeqCst);
+                                    return Err(());
+                                }
                                 Ok::<_, ()>(EchoSvc { listener: i, w: w5 })
                             }
                         })
@@ -657,7 +683,12 @@ fn run_once_inner(c: &Case, prop: Prop) -> Result<Obs, (Fail, bool)> {
                         fn_factory(move || {
                             let w5 = w4.clone();
                             async move {
-                                w5.factory_count.fetch_add(1, Ordering::SeqCst);
+                                let nth = w5.factory_count.fetch_add(1, Ordering::SeqCst);
+                                if nth == w5.fail_at.load(Ordering::SeqCst) {
+                                    // the factory refuses this instantiation (a replacement that cannot be started)
+                                    w5.factory_failed.store(true, Ordering::SeqCst);
+                                    return Err(());
+                                }
                                 Ok::<_, ()>(EchoSvc { listener: i, w: w5 })
                             }
                         })
@@ -692,15 +723,32 @@ fn run_once_inner(c: &Case, prop: Prop) -> Result<Obs, (Fail, bool)> {
     // `Server` is lazy: the workers are started by the first poll of `srv.await`, after the handle
     // has been handed out. Wait until every worker has created its services.
     {
+        // every worker instantiates the registered factories once: one per listening socket in the
+        // code as it stands, at least one per registration in any case (how many exactly is not
+        // part of any property: what is observed here is what a replacement worker must repeat)
         let t0 = Instant::now();
-        while w.factory_count.load(Ordering::SeqCst) < workers * nsock && t0.elapsed() < Duration::from_secs(20) {
+        let mut last = (0usize, Instant::now());
+        loop {
+            let n = w.factory_count.load(Ordering::SeqCst);
+            if n != last.0 {
+                last = (n, Instant::now());
+            }
+            if n >= workers * nsock || (n >= workers * nl && n % workers == 0 && last.1.elapsed() > Duration::from_millis(300)) {
+                break;
+            }
+            if t0.elapsed() > Duration::from_secs(20) {
+                return Err((Fail::new("harness/setup", "workers did not start"), false));
+            }
             thread::sleep(Duration::from_millis(1));
-        }
-        if w.factory_count.load(Ordering::SeqCst) < workers * nsock {
-            return Err((Fail::new("harness/setup", "workers did not start"), false));
         }
     }
     let initial_factories = w.factory_count.load(Ordering::SeqCst);
+    // instantiations per worker, as observed
+    let nsock = (initial_factories / workers).max(1);
+    if c.fail_first_restart && workers >= 2 {
+        // the first instantiation after the initial ones is refused: that worker cannot be replaced
+        w.fail_at.store(initial_factories, Ordering::SeqCst);
+    }
     let mut r = Run {
         handle2: handle.clone(),
         handle,
@@ -729,6 +777,7 @@ fn run_once_inner(c: &Case, prop: Prop) -> Result<Obs, (Fail, bool)> {
         _ => {}
     }
     let mut next_id = 0u32;
+    let mut refused = false;
     let mut stop_checked = false;
     for op in &c.ops {
         // a finding for the property under test ends the script (each missed bound costs seconds)
@@ -917,6 +966,19 @@ fn run_once_inner(c: &Case, prop: Prop) -> Result<Obs, (Fail, bool)> {
                             }
                             r.refresh();
                         }
+                        if r.w.factory_failed.swap(false, Ordering::SeqCst) {
+                            // this replacement was refused by the factory: the server goes on with one worker less
+                            r.label("replacement-refused-by-factory");
+                            r.workers -= 1;
+                            refused = true;
+                            thread::sleep(Duration::from_millis(50));
+                        } else if r.w.factory_count.load(Ordering::SeqCst) < before + nsock {
+                            let msg = format!("a worker died (fault number {}{}) but no replacement was started within {:?}: {} of {} expected service instantiations", r.panics, if refused { ", after an earlier replacement had been refused by the service factory" } else { "" }, BOUND, r.w.factory_count.load(Ordering::SeqCst) - before, nsock);
+                            r.flag(Prop::C08, "C08/not-replaced", msg, true);
+                        }
+                        if r.workers == 0 {
+                            break;
+                        }
                         r.settle(true);
                         // with two or more workers a live worker exists at every moment (one fault at
                         // a time): nothing that arrived after the fault may be discarded
@@ -931,7 +993,7 @@ fn run_once_inner(c: &Case, prop: Prop) -> Result<Obs, (Fail, bool)> {
                         }
                         let now = r.w.factory_count.load(Ordering::SeqCst);
                         if now > before + nsock {
-                            r.flag(Prop::C08, "C08/too-many-replacements", format!("one worker fault led to {} service instantiations ({} listening sockets)", now - before, nsock), false);
+                            r.flag(Prop::C08, "C08/too-many-replacements", format!("one worker fault led to {} service instantiations ({} per worker at start-up)", now - before, nsock), false);
                         }
                     } else {
                         r.w.panic_next.store(false, Ordering::SeqCst);
@@ -1024,7 +1086,31 @@ fn run_once_inner(c: &Case, prop: Prop) -> Result<Obs, (Fail, bool)> {
                     if r.waiting() > 0 {
                         r.label("queued-while-not-ready-then-ready");
                     }
+                    // clients that wait (made one after the other), per listener, in connect order
+                    let queued: Vec<(usize, u32)> = r.clients.iter().filter(|c| c.state == CState::Waiting).map(|c| (c.listener, c.id)).collect();
                     r.w.open_gate();
+                    if r.workers == 1 && !r.paused && queued.len() >= 3 {
+                        r.settle(false);
+                        // C07: queued connections wait in order - with one worker the service of a
+                        // listener is called for them in the order in which they connected
+                        let calls = r.w.calls.lock().unwrap().clone();
+                        for l in 0..nl {
+                            // (a listener with two sockets has two accept queues: no order between them)
+                            if matches!(r.addrs[l], LAddr::Tcp2(..)) {
+                                continue;
+                            }
+                            let want: Vec<u32> = queued.iter().filter(|(ql, _)| *ql == l).map(|(_, id)| *id).collect();
+                            let got: Vec<u32> = calls.iter().filter(|c| want.contains(&c.conn)).map(|c| c.conn).collect();
+                            let want_served: Vec<u32> = want.iter().copied().filter(|id| got.contains(id)).collect();
+                            if want_served.len() >= 3 {
+                                r.label(">=3-queued-connections-order-checked");
+                            }
+                            if got != want_served {
+                                let msg = format!("connections {:?} connected to listener {} in this order (one after the other) while its service was not ready and waited at the only worker; once it was ready the service was called for them in the order {:?}", want_served, l, got);
+                                r.flag(Prop::C07, "C07/not-fifo-e2e", msg, true);
+                            }
+                        }
+                    }
                 }
             }
             Op::PanicAll => {
@@ -1104,13 +1190,13 @@ fn run_once_inner(c: &Case, prop: Prop) -> Result<Obs, (Fail, bool)> {
                 }
                 let now = r.w.factory_count.load(Ordering::SeqCst);
                 if now < want {
-                    r.flag(Prop::C08, "C08/not-all-replaced", format!("{} workers died at once but only {} replacement service instantiations happened within {:?} (expected {}: {} listening socket(s) each)", died, now - before, BOUND * 3, died * nsock, nsock), true);
+                    r.flag(Prop::C08, "C08/not-all-replaced", format!("{} workers died at once but only {} replacement service instantiations happened within {:?} (expected {}: {} per worker as at start-up)", died, now - before, BOUND * 3, died * nsock, nsock), true);
                     continue;
                 }
                 thread::sleep(Duration::from_millis(150));
                 let now = r.w.factory_count.load(Ordering::SeqCst);
                 if now > want {
-                    r.flag(Prop::C08, "C08/too-many-replacements", format!("{} worker faults led to {} service instantiations ({} listening sockets)", died, now - before, nsock), false);
+                    r.flag(Prop::C08, "C08/too-many-replacements", format!("{} worker faults led to {} service instantiations ({} per worker at start-up)", died, now - before, nsock), false);
                 }
                 // every replacement is in the rotation: two rounds of connections reach every worker
                 let calls0 = r.w.calls.lock().unwrap().len();
@@ -1130,6 +1216,19 @@ fn run_once_inner(c: &Case, prop: Prop) -> Result<Obs, (Fail, bool)> {
                 }
             }
             Op::Sleep { ms } => thread::sleep(Duration::from_millis(ms as u64 % 700)),
+            Op::LongIdle => {
+                r.refresh();
+                if r.held() == r.workers * r.limit && r.waiting() > 0 {
+                    r.label("saturated-and-quiet-for-10s");
+                }
+                thread::sleep(Duration::from_millis(10_600));
+                r.refresh();
+                let cap = r.workers * r.limit;
+                if r.held() > cap {
+                    let msg = format!("{} connections are being served at once after a quiet period of 10.6 s; {} workers x limit {} allow {}", r.held(), r.workers, r.limit, cap);
+                    r.flag(Prop::C02, "C02/limit-exceeded", msg, false);
+                }
+            }
             Op::HoldBusy { l, ms } => {
                 r.refresh();
                 if r.paused || r.busy_until.is_some() || r.clients.len() >= 11 || r.held() >= r.workers * r.limit || r.waiting() > 0 || r.w.gate_closed.load(Ordering::SeqCst) {
@@ -1311,7 +1410,8 @@ fn run_once_inner(c: &Case, prop: Prop) -> Result<Obs, (Fail, bool)> {
                     }
                 }
                 if twice {
-                    match d2rx.recv_timeout(hard) {
+                    // (when the first stop never completed there is no point in waiting as long again)
+                    match d2rx.recv_timeout(if completed.is_none() { Duration::from_secs(1) } else { hard }) {
                         Err(_) => r.flag(Prop::C06, "C06/second-stop-unresolved", "the future of a second stop() never resolved".into(), true),
                         Ok(t2) => {
                             // the second stop(true) is a graceful stop too: it does not complete while
@@ -1467,14 +1567,18 @@ fn run_once_inner(c: &Case, prop: Prop) -> Result<Obs, (Fail, bool)> {
             block_on(f);
             let _ = tx.send(());
         });
-        let _ = rx.recv_timeout(Duration::from_secs(10));
+        // (a forced stop of a healthy server completes within milliseconds)
+        if rx.recv_timeout(if r.found.is_empty() { BOUND } else { Duration::from_secs(1) }).is_err() && r.found.is_empty() {
+            r.flag(Prop::C06, "C06/stop-never-completes", format!("the stop(false) that ends the run did not complete within {:?}", BOUND), true);
+        }
     }
     for cl in r.clients.drain(..) {
         drop(cl);
     }
     if let Some(t) = r.server_thread.take() {
         let t0 = Instant::now();
-        while !r.server_done.load(Ordering::SeqCst) && t0.elapsed() < Duration::from_secs(10) {
+        let patience = if r.found.is_empty() { BOUND } else { Duration::from_secs(1) };
+        while !r.server_done.load(Ordering::SeqCst) && t0.elapsed() < patience {
             thread::sleep(Duration::from_millis(2));
         }
         r.may_exit.0.store(true, Ordering::SeqCst);
@@ -1507,6 +1611,7 @@ fn run_once_inner(c: &Case, prop: Prop) -> Result<Obs, (Fail, bool)> {
         Prop::C04 => r.labels.contains(&"round-robin-window-checked") || r.labels.contains(&"churn-with-command-chatter"),
         Prop::C05 => r.labels.contains(&"pause") || r.labels.contains(&"inject"),
         Prop::C06 => stop_checked && r.labels.contains(&"stop-with-held-connections"),
+        Prop::C07 => r.labels.contains(&">=3-queued-connections-order-checked"),
         Prop::C08 => r.panics > 0,
     };
     Ok(obs)
@@ -1529,7 +1634,7 @@ pub mod gen {
                         ops.push(Op::Release { k });
                     }
                 }
-                Case { workers, limit: 12, listeners, shutdown_timeout_s: 1, ops, bind_mode, slow_drop: false, setters: (bind_mode as usize + workers) as u8, block_after_stop: false }
+                Case { workers, limit: 12, listeners, shutdown_timeout_s: 1, ops, bind_mode, slow_drop: false, setters: (bind_mode as usize + workers) as u8, block_after_stop: false, fail_first_restart: false }
             })
     }
 
@@ -1546,7 +1651,59 @@ pub mod gen {
             ops.push(Op::Connect { l: 0 });
             ops.push(Op::Settle);
             ops.push(Op::Churn { n: n2 });
-            Case { workers, limit, listeners: vec![LKind::Tcp], shutdown_timeout_s: 1, ops, bind_mode, slow_drop: false, setters: (workers + limit) as u8, block_after_stop: false }
+            Case { workers, limit, listeners: vec![LKind::Tcp], shutdown_timeout_s: 1, ops, bind_mode, slow_drop: false, setters: (workers + limit) as u8, block_after_stop: false, fail_first_restart: false }
+        })
+    }
+
+    /// C07 end to end: one worker, connections made one after the other while the services are not
+    /// ready, then readiness returns
+    pub fn order_strategy() -> impl Strategy<Value = Case> {
+        (prop::collection::vec(prop::sample::select(vec![LKind::Tcp, LKind::Tcp, LKind::Uds]), 1..3), prop::collection::vec(any::<u16>(), 3..9), 0u8..2, prop::collection::vec(any::<u16>(), 0..3)).prop_map(|(listeners, conns, bind_mode, pre)| {
+            let mut ops: Vec<Op> = vec![];
+            for l in pre {
+                ops.extend([Op::Connect { l }, Op::Settle, Op::Release { k: 0 }, Op::Settle]);
+            }
+            ops.push(Op::GateClose);
+            for l in conns {
+                ops.push(Op::Connect { l });
+            }
+            ops.extend([Op::Sleep { ms: 80 }, Op::GateOpen, Op::Settle]);
+            Case { workers: 1, limit: 12, listeners, shutdown_timeout_s: 1, ops, bind_mode, slow_drop: false, setters: bind_mode, block_after_stop: false, fail_first_restart: false }
+        })
+    }
+
+    /// C02: every slot taken, clients waiting, then a long quiet period
+    pub fn long_idle_strategy() -> impl Strategy<Value = Case> {
+        (1usize..3, 1usize..3, 0u8..3).prop_map(|(workers, limit, bind_mode)| {
+            let mut ops: Vec<Op> = vec![];
+            for _ in 0..workers * limit + 2 {
+                ops.push(Op::Connect { l: 0 });
+            }
+            ops.extend([Op::Settle, Op::LongIdle, Op::Settle, Op::Release { k: 0 }, Op::Settle]);
+            Case { workers, limit, listeners: vec![LKind::Tcp], shutdown_timeout_s: 1, ops, bind_mode, slow_drop: false, setters: (workers * 2 + limit) as u8, block_after_stop: false, fail_first_restart: false }
+        })
+    }
+
+    /// C08: the factory refuses the replacement of the first faulted worker; the faults that follow
+    /// (of any other worker, in particular the one with the highest index) must still be handled
+    pub fn restart_refused_strategy() -> impl Strategy<Value = Case> {
+        (1usize..3, 0u8..3, prop::collection::vec((0usize..4, any::<bool>()), 2..5)).prop_map(|(limit, bind_mode, rounds)| {
+            let mut ops: Vec<Op> = vec![Op::Connect { l: 0 }, Op::Settle, Op::Release { k: 0 }, Op::Settle, Op::PanicNext, Op::Settle];
+            for (n, again) in rounds {
+                for _ in 0..n {
+                    ops.push(Op::Connect { l: 0 });
+                    ops.push(Op::Settle);
+                    ops.push(Op::Release { k: 0 });
+                    ops.push(Op::Settle);
+                }
+                ops.push(Op::PanicNext);
+                ops.push(Op::Settle);
+                if again {
+                    ops.push(Op::Connect { l: 0 });
+                    ops.push(Op::Settle);
+                }
+            }
+            Case { workers: 3, limit, listeners: vec![LKind::Tcp], shutdown_timeout_s: 1, ops, bind_mode, slow_drop: false, setters: limit as u8, block_after_stop: false, fail_first_restart: true }
         })
     }
 
@@ -1571,7 +1728,7 @@ pub mod gen {
             if let Some(graceful) = stop {
                 ops.push(Op::Stop { graceful, twice: false, drop_future: false });
             }
-            Case { workers, limit, listeners: vec![LKind::Tcp], shutdown_timeout_s: 1, ops, bind_mode, slow_drop: false, setters: (workers + limit) as u8, block_after_stop: false }
+            Case { workers, limit, listeners: vec![LKind::Tcp], shutdown_timeout_s: 1, ops, bind_mode, slow_drop: false, setters: (workers + limit) as u8, block_after_stop: false, fail_first_restart: false }
         })
     }
 
@@ -1690,7 +1847,7 @@ pub mod gen {
                     }
                     ops.push(s);
                 }
-                Case { workers, limit, listeners, shutdown_timeout_s, ops, bind_mode, slow_drop, setters: (bind_mode as usize + workers * 3 + limit) as u8, block_after_stop }
+                Case { workers, limit, listeners, shutdown_timeout_s, ops, bind_mode, slow_drop, setters: (bind_mode as usize + workers * 3 + limit) as u8, block_after_stop, fail_first_restart: false }
             })
     }
 }
